@@ -10,8 +10,9 @@ def two_ctx_spec(eff="AO"):
     """plain sections decide by RBAC, the '2' sections by plain ACL equality with swapped meaning, so the
     same values decide differently with and without the context"""
     pf = "sub,obj,act" + (",eft" if eff != "AO" else "")
-    m = And(Call("g", V("r", "sub"), V("p", "sub")), Eq(V("r", "obj"), V("p", "obj")), Eq(V("r", "act"), V("p", "act")))
-    m2 = And(Eq(V("r2", "sub"), V("p2", "sub")), Eq(V("r2", "act"), V("p2", "act")))
+    m = And(Call("g", V("r", "sub"), V("p", "sub")), Call("keyMatch", V("r", "obj"), V("p", "obj")), Eq(V("r", "act"), V("p", "act")))
+    # both matchers go through a built-in (keyMatch) so that overriding it with add_function is observable
+    m2 = And(Eq(V("r2", "sub"), V("p2", "sub")), Call("keyMatch", V("r2", "obj"), V("p2", "obj")))
     return "r=sub,obj,act;r2=sub,obj,act;p=%s;p2=%s;g=2;e=%s;e2=%s;m={%s};m2={%s}" % (pf, pf, eff, eff, m, m2)
 
 
@@ -24,26 +25,29 @@ def generate(tier, seed):
     cases = []
     dist = {"exhaustive": 0, "random": 0}
     sp = two_ctx_spec()
-    pr = [["alice", "data1", "read"], ["admin", "data1", "read"], ["bob", "data2", "read"]]
+    pr = [["alice", "data1", "read"], ["admin", "data2", "read"], ["bob", "data2", "read"]]
     gr = [["alice", "admin"], ["bob", "admin"]]
     muts = [A("p", "p", pr[0]), R("p", "p", pr[0]), A("p", "p", pr[1]), R("p", "p", pr[1]), A("p", "p2", pr[2]), R("p", "p2", pr[2]),
             A("g", "g", gr[0]), R("g", "g", gr[0]), AM("p", "p", pr[:2]), RM("p", "p", pr[:2]), RF("p", "p", 0, ["alice"]),
             RF("g", "g", 0, ["alice"]), "ar:alice:admin:-", "dr:alice:admin:-", "du:alice", "dra:admin", "dpsf:alice",
             "CL", "LD", "LF:%s:%s" % (enc_rule(["alice"]), enc_rule([])), "SV",
             "SM:" + other_spec(), "SM:" + sp, "SA:" + adapter_M([["p", "p"] + pr[2], ["g", "g"] + gr[1]]), "SA:N",
-            "SR:10", "BR", "EE:0", "EE:1", "SE", "AF:keyMatch:neq", "AF:g:eq", "ES:0", "ES:1", "EB:0", "EB:1", "EN:0", "EN:1"]
-    reqs = [["alice", "data1", "read"], ["bob", "data1", "read"], ["bob", "data2", "read"], ["root", "data1", "read"], ["alice", "data1"]]
+            "SR:10", "BR", "EE:0", "EE:1", "SE", "AF:keyMatch:neq", "AF:myfn:true", "ES:0", "ES:1", "EB:0", "EB:1", "EN:0", "EN:1"]
+    reqs = [["alice", "data1", "read"], ["bob", "data1", "read"], ["bob", "data2", "read"], ["alice", "data2", "read"], ["root", "data1", "read"],
+            ["alice", "data1"]]
 
     def qblock():
         out = []
         for r in reqs:
             out += [Q_e(r), Q_e(r)]
         out += [Q_em(reqs[0]), Q_em(reqs[1]), Q_e(reqs[1])]
-        for r in reqs[:3]:
+        for r in reqs[:4]:
             out += [Q_ec("2", r), Q_ec("2", r)]
         return out
 
-    lines = [["p", "p"] + pr[0], ["p", "p2"] + pr[2], ["g", "g"] + gr[0]]
+    # alice reaches data2 only through the role link, bob holds data2 under p2 only through keyMatch: every mutator
+    # (also add_function overriding g / keyMatch, set_role_manager, build_role_links with auto-build off) can flip a cached decision
+    lines = [["p", "p"] + pr[0], ["p", "p"] + pr[1], ["p", "p2"] + pr[2], ["g", "g"] + gr[0]]
     L = 2
     muts_ex = muts if tier != "quick" else muts
     for k in range(1, L + 1):
@@ -51,6 +55,13 @@ def generate(tier, seed):
             steps = qblock()
             for o in h:
                 steps += [o] + qblock()
+            cases.append(case("twin", sp, adapter_M(lines), "-", steps))
+            dist["exhaustive"] += 1
+    # from a state whose role graph is STALE (auto-build off, then a grouping rule removed / added): build_role_links,
+    # set_role_manager, reloads and re-enabling auto-build now change decisions
+    for pre in (["EB:0", R("g", "g", gr[0])], ["EB:0", A("g", "g", gr[1]), A("p", "p2", ["bob", "data9", "read"])]):
+        for m1 in muts:
+            steps = list(pre) + qblock() + [m1] + qblock()
             cases.append(case("twin", sp, adapter_M(lines), "-", steps))
             dist["exhaustive"] += 1
     # every mutator with the adapter failing / refusing exactly at that call (warm cache before, queries after)
@@ -121,7 +132,7 @@ def generate(tier, seed):
         "exhaustive": False,
         "rule": ("a model with plain and '2'-suffixed sections that decide differently on equal values; every history of <= 2 calls over the complete public "
                  "mutating surface (%d calls: management, RBAC helpers, clear_policy, load_policy, load_filtered_policy, save_policy, set_model (two models), "
-                 "set_adapter, set_role_manager, build_role_links, enable_enforce, set_effector, add_function (overriding a built-in and a g-function), "
+                 "set_adapter, set_role_manager, build_role_links, enable_enforce, set_effector, add_function (overriding a built-in used by both matchers; a fresh name), "
                  "auto-save/build/notify toggles), a block of plain and context-qualified requests (each issued twice) before the history and after every call; "
                  "seeded random interleavings up to length 80, also with failing adapters; a model with allow-override e and deny-override e2 over shared sections "
                  "queried through hand-assembled EnforceContext values (all 16 combinations of section names, contexts differing in one name only issued "
